@@ -29,7 +29,9 @@ class Sphere(Domain):
     def __call__(self, **data):
         new_center = self.center.partially_evaluate(**data)
         new_radius = self.radius.partially_evaluate(**data)
-        return Sphere(space=self.space, center=new_center, radius=new_radius)
+        return self._evaluate_user_volume(
+            Sphere(space=self.space, center=new_center, radius=new_radius), **data
+        )
 
     def _compute_center_and_radius(self, params=Points.empty(), device="cpu"):
         center = self.center(params, device).reshape(-1, 3)
